@@ -444,7 +444,7 @@ pub fn c12(cx: &Ctx) -> Report {
                     for pos in [Pos::Top, Pos::VecElem] {
                         let doc2 = if pos == Pos::VecElem {
                             match fmt {
-                                Fmt::Json | Fmt::Ron => {
+                                Fmt::Json | Fmt::Ron | Fmt::RonNamed => {
                                     let mut v = b"[".to_vec();
                                     v.extend_from_slice(&doc);
                                     v.push(b']');
@@ -473,6 +473,31 @@ pub fn c12(cx: &Ctx) -> Report {
                                 r.evaluations += 1;
                             }
                         }
+                    }
+                }
+            }
+            // adversarial deserializer: every float-ish visitor method with every non-finite class
+            if d.derives(Tr::Deserialize) {
+                use crate::serde_h::ProbeCall;
+                let mut calls: Vec<ProbeCall> = vec![];
+                for x in [f64::NAN, -f64::NAN, f64::INFINITY, f64::NEG_INFINITY, 1e39, -1e39, f64::MAX, f64::MIN] {
+                    calls.push(ProbeCall::F64(x));
+                    calls.push(ProbeCall::F32(x as f32));
+                    calls.push(ProbeCall::Newtype(Box::new(ProbeCall::F64(x))));
+                    calls.push(ProbeCall::Newtype(Box::new(ProbeCall::F32(x as f32))));
+                    calls.push(ProbeCall::Seq1(Box::new(ProbeCall::F64(x))));
+                    calls.push(ProbeCall::Some_(Box::new(ProbeCall::F64(x))));
+                    calls.push(ProbeCall::Str(format!("{x}")));
+                }
+                for c in calls {
+                    match s.de_probe(&c) {
+                        DeOut::Ok(vs) => {
+                            for v in vs {
+                                note("Deserialize via a single visitor method", format!("{c:?}"), &Outcome::Ok(v), r, &mut obtained);
+                            }
+                        }
+                        DeOut::Panic(p) => r.violate(mkviol("C12", i, d, "Deserialize via a single visitor method", format!("{c:?}"), "no panic".into(), p, "panic")),
+                        _ => r.evaluations += 1,
                     }
                 }
             }
